@@ -23,7 +23,7 @@ ActiveIns(n) ==
     CASE n.kind \in SourceKinds -> {}
       [] n.kind \in {"sample", "sample2", "sampleu", "elem0"} -> {1}
       [] n.kind \in {"elem1", "psum2a"} -> {2}   \* psum2a: sum2 whose FIRST input is used passively
-      [] n.kind = "sum3"        -> {1, 2, 3}
+      [] n.kind \in {"sum3", "lradd", "lrmin", "lrmax"} -> {1, 2, 3}
       [] n.kind = "elem1x"      -> {2}       \* (unused) elem0 / elem1: element 0 / 1 of a list output packed from two inputs    \* sample2 / sampleu: sum2 / sumu with a passive second input
       [] n.kind \in {"sum2", "sumu", "keymix", "lsum", "lsumv"} -> {1, 2}
       [] OTHER                  -> {1}
@@ -43,6 +43,7 @@ ValidIns(n) ==
       [] n.kind = "elem0"       -> {1}
       [] n.kind = "elem1"       -> {2}
       [] n.kind \in {"tog", "ltog"} -> {}    \* unchecked inputs
+      [] n.kind \in {"lradd", "lrmin", "lrmax"} -> {}   \* reduce_ over a fixed list: folds whatever is valid
       [] n.kind = "lsumv"       -> {}        \* a list input is valid as soon as one element is
       [] n.kind \in {"sum2", "sample", "sample2", "psum2a", "keymix", "lsum"} -> {1, 2}
       [] n.kind = "sum3" -> {1, 2, 3}   \* lsum: all-valid list input
@@ -77,6 +78,12 @@ F(n, iv, iok, s) ==
       [] n.kind = "ltog"   -> [w |-> TRUE, v |-> (IF iok[1] THEN iv[1] ELSE 0) + (IF iok[2] THEN iv[2] ELSE 0)
                                                   + (IF iok[3] THEN iv[3] ELSE 0) + (IF iok[4] THEN iv[4] ELSE 0),
                                s |-> IF iok[1] /\ iv[1] % 2 = 1 THEN 1 ELSE 0]
+      \* reduce_ over a fixed-size list of three streams (C11): the fold over exactly the valid elements
+      [] n.kind = "lradd"  -> [w |-> TRUE, v |-> (IF iok[1] THEN iv[1] ELSE 0) + (IF iok[2] THEN iv[2] ELSE 0) + (IF iok[3] THEN iv[3] ELSE 0), s |-> s]
+      [] n.kind = "lrmin"  -> LET vs == {iv[k] : k \in {j \in 1..3 : iok[j]}}
+                              IN [w |-> TRUE, v |-> CHOOSE x \in vs : \A y \in vs : x <= y, s |-> s]
+      [] n.kind = "lrmax"  -> LET vs == {iv[k] : k \in {j \in 1..3 : iok[j]}}
+                              IN [w |-> TRUE, v |-> CHOOSE x \in vs : \A y \in vs : x >= y, s |-> s]
       [] n.kind = "acc"    -> [w |-> TRUE, v |-> s + iv[1], s |-> s + iv[1]]
       [] n.kind = "count"  -> [w |-> TRUE, v |-> s + 1, s |-> s + 1]
       [] n.kind = "throwneg" -> IF iv[1] < 0 THEN [w |-> FALSE, v |-> 0, s |-> s]
